@@ -59,6 +59,9 @@ def run(ctx):
     hist_res = common.run_workers(ctx, "w_hist", cases, hashseed="0")
     seeds = [str(ctx.rng.randint(1, 4000000000)) for _ in range(2)]
     seeded = [common.run_workers(ctx, "w_hist", [{"text": t} for t in tx], hashseed=s, nproc=5) for s in seeds]
+    # the process time zone (TZ) is hidden state too: the same texts in workers that run under other local zones
+    zones = ["Asia/Tokyo", ctx.rng.choice(["America/Sao_Paulo", "Pacific/Auckland", "America/New_York"])]
+    zoned = [common.run_workers(ctx, "w_hist", [{"text": t} for t in tx], hashseed="0", nproc=5, extra_env={"TZ": z}) for z in zones]
     bad, stats = [], Counter()
 
     def same(a, b):
@@ -99,6 +102,11 @@ def run(ctx):
         if h.get("ok") and "obs_again" in h and not same(h["obs"], h["obs_again"]):
             bad.append({"what": "calling schedule() again on a scheduled project changed the result", "text": t,
                         "first": summary({"obs": h["obs"]}), "second": summary({"obs": h["obs_again"]})})
+        for z, zr in zip(zones, zoned):
+            g = zr[i]
+            if f.get("ok") != g.get("ok") or (f.get("ok") and not same(f["obs"], g["obs"])):
+                bad.append({"what": "the result depends on the time zone of the process (TZ)", "TZ": z, "text": t,
+                            "utc": summary(f), "other": summary(g)})
         for s, sr in zip(seeds, seeded):
             g = sr[i]
             if f.get("ok") != g.get("ok") or (f.get("ok") and not same(f["obs"], g["obs"])):
@@ -114,7 +122,7 @@ def run(ctx):
         violations.append({"no_input": True, "replay": common.write_replay(ctx, {"property": "C12", "kind": "proof obligation no longer checks; no failing input found", "failing_obligations": failing})})
     cov = {"obligations": nob, "discharged": ndis, "checker_cmd": "tools/coqbuild.sh (coqc 8.16.1 full .vo build)", "trusted_base": common.TRUSTED, "files": files,
            "traces_validated_against_impl": len(tx) * 4, "input_distribution": dict(stats), "hash_seeds": ["0"] + seeds,
-           "rule": "each project text (7 generator families incl. allocations with two or three alternatives on resources of differing availability, 40% with nested scenarios and scenario-specific efforts, a cost report attached) is processed (a) alone in a fresh process, (b) after a random history of 1-4 other parse/schedule/report calls incl. failing ones, with a fresh parser object per call or ONE parser object reused, (c) twice, (d) followed by a second schedule(), (e) under two further PYTHONHASHSEED values, (f) through run_scriptplan (the interface 'plan report' uses) alone and after 1-4 other such runs incl. runs the library ends with a fatal error; dates of all scenarios, the ledger and the report tables are compared",
+           "rule": "each project text (7 generator families incl. allocations with two or three alternatives on resources of differing availability, 40% with nested scenarios and scenario-specific efforts, a cost report attached) is processed (a) alone in a fresh process, (b) after a random history of 1-4 other parse/schedule/report calls incl. failing ones, with a fresh parser object per call or ONE parser object reused, (c) twice, (d) followed by a second schedule(), (e) under two further PYTHONHASHSEED values and under two other process time zones (TZ), (f) through run_scriptplan (the interface 'plan report' uses) alone and after 1-4 other such runs incl. runs the library ends with a fatal error; dates of all scenarios, the ledger and the report tables are compared",
            "samples": [{"mode": kinds[0], "text": tx[0][:700]}]}
     common.finish(ctx, "proof", cov, violations,
                   ["partial: hash-seed and interpreter-level nondeterminism are outside the model and are covered by the runs only",
